@@ -1995,6 +1995,14 @@ class QuicConnection:
 
         # assign new CID if we retired the active one
         if change_cid:
+            if not self._peer_cid_available:
+                # The peer asked us to stop using the active connection ID
+                # without leaving us any other connection ID to use.
+                raise QuicConnectionError(
+                    error_code=QuicErrorCode.PROTOCOL_VIOLATION,
+                    frame_type=frame_type,
+                    reason_phrase="Retire Prior To leaves no connection ID to use",
+                )
             self._consume_peer_cid()
 
         # check number of active connection IDs, including the selected one
